@@ -18,11 +18,14 @@ def _graph_cfg(path, maxn, maxe):
 
 
 def _obs_cfg(path, maxn, maxe, nobjs, eobjs, idxs, maxobs, depth):
+    """depth = 0: every history (module Observer); depth > 0: every history of at most `depth` calls
+    (module ObserverMC: exact step counter, independent of the number of TLC workers)."""
     with open(path, "w") as f:
-        f.write("SPECIFICATION OSpec\nCONSTANTS\n  MaxN = %d\n  MaxE = %d\n  NObjs = {%s}\n  EObjs = {%s}\n  Idxs = {%s}\n"
+        f.write("SPECIFICATION %s\nCONSTANTS\n  MaxN = %d\n  MaxE = %d\n  NObjs = {%s}\n  EObjs = {%s}\n  Idxs = {%s}\n"
                 "  MaxObs = %d\n  MaxDepth = %d\n%sINVARIANTS %s %s\nPROPERTIES %s\nCHECK_DEADLOCK FALSE\n" % (
+                    "MCSpec" if depth > 0 else "OSpec",
                     maxn, maxe, ", ".join(map(str, nobjs)), ", ".join(map(str, eobjs)), ", ".join(map(str, idxs)), maxobs,
-                    depth, "CONSTRAINT Bound\n" if depth > 0 else "", G_INV, O_INV, O_PROP))
+                    depth, "CONSTRAINT DepthBound\n" if depth > 0 else "", G_INV, O_INV, O_PROP))
 
 
 def _merge_untaken(untaken):
@@ -108,16 +111,16 @@ def run(tier, seed):
         if r.invariant:
             ck.violation("design model Graph violates %s" % r.invariant, [r.out[-6000:]], tag="model")
     obs_runs = [("obs1", (2, 2, [1, 2], [1], [0, 1], 1, 0)),
-                ("obs2", (2, 2, [1, 2], [1], [0, 1], 2, 5 if quick else 6))]
+                ("obs2", (2, 2, [1, 2], [1], [0, 1], 2, 3 if quick else 5))]
     if not quick:
-        obs_runs.append(("obs1-large", (3, 3, [1, 2, 3], [1, 2], [0, 1], 1, 9)))
+        obs_runs.append(("obs1-large", (3, 3, [1, 2, 3], [1, 2], [0, 1], 1, 4)))
     if not models:
         obs_runs = []
         ck.assumptions.append("design models skipped (VERIF_C14_MODELS=0)")
     for name, c in obs_runs:
         cfg = os.path.join(wd, name + ".cfg")
         _obs_cfg(cfg, *c)
-        r = vc.model_check(SPEC, "Observer", cfg, coverage=True, timeout=3000, heap="12g")
+        r = vc.model_check(SPEC, "ObserverMC" if c[-1] > 0 else "Observer", cfg, coverage=True, timeout=3000, heap="12g")
         ck.add_model("Observer/" + name, r, "MaxN=%d MaxE=%d NObjs=%s EObjs=%s Idxs=%s MaxObs=%d MaxDepth=%d" % c)
         if r.invariant:
             ck.violation("design model Observer/%s violates %s" % (name, r.invariant), [r.out[-6000:]], tag="model")
